@@ -28,6 +28,7 @@ type Knobs struct {
 	PQS             *bool               `json:"pqs,omitempty"`
 	Aggs            *bool               `json:"aggs,omitempty"` // agile tree
 	LowMem          bool                `json:"low_mem,omitempty"`
+	MemBytes        uint64              `json:"mem_bytes,omitempty"` // memoryLimits.maxMemoryAllowedToUseInBytes: the memory limiter evicts metadata under it
 	IdleFlushSecs   int                 `json:"idle_flush_secs,omitempty"`
 	MaxWaitSecs     int                 `json:"max_wait_secs,omitempty"`
 	QueryTimeoutSec int                 `json:"query_timeout_secs,omitempty"`
